@@ -57,7 +57,7 @@ var propertyCanaries = map[string][]string{
 	"C06": {"OKFLOW.condpath", "FACT.condafter", "FACTKIND.pair", "OKFLOW.use", "OKFLOW.cond", "OKFLOW.report", "FACT.normorder", "FACT.state", "FACT.condunit", "NILRECV"},
 	"C07": {"ARGS.arms", "ARGS.strict", "ARGS.fullrow", "WORKSIZE.querylen", "ARGS.order", "ARGS.lencheck", "ARGS.query", "MAT.order", "ASM.window", "ASM.tail", "STRIDE.len"},
 	"C08": {"ASM.lost", "PARAMUSE.read", "ASM.window", "ASM.tail", "ASM.units", "STRIDE.extent", "SIB.guards"},
-	"C09": {"GOPROTO.scratch", "GLOBAL.write", "GOPROTO.capture", "GOPROTO.lockpair", "GOPROTO.sibling", "POOL.uaf"},
+	"C09": {"GOPROTO.semcap", "GOPROTO.scratch", "GLOBAL.write", "GOPROTO.capture", "GOPROTO.lockpair", "GOPROTO.sibling", "POOL.uaf"},
 	"C12": {"GRAPHINV.panicorder", "GRAPHINV.absent", "GRAPHINV.iterreset", "GRAPHINV.converse", "GRAPHINV.uid", "GRAPHINV.iter", "TWIN.sibstate"},
 	"C16": {"DECODE.order", "DECODE.errdrop", "DECODE.mul", "DECODE.selfcmp", "DECODE.clone", "DECODE.fields"},
 	"C17": {"GLOBAL.write", "RESET.fields", "WINDOW.pointwise"},
@@ -98,6 +98,7 @@ func init() {
 		{"OKFLOW.condpath", "mat/cholesky.go", "\t\tlapack64.Potrs(c.chol.mat, dst.asGeneral())\n\t\tif c.cond > ConditionTolerance {\n\t\t\treturn Condition(c.cond)\n\t\t}\n\t\treturn nil", "\t\tlapack64.Potrs(c.chol.mat, dst.asGeneral())\n\t\treturn nil", func() *core.Result { return okflow.Run(def, core.Pkgs("./mat", "./lapack/lapack64", "./lapack/gonum")) }},
 		{"FACT.condafter", "mat/lq.go", "\tlapack64.Gelqf(lq.lq.mat, lq.tau, work, len(work))\n\tputFloat64s(work)\n\tlq.updateCond(norm)", "\tlq.updateCond(norm)\n\tlapack64.Gelqf(lq.lq.mat, lq.tau, work, len(work))\n\tputFloat64s(work)", func() *core.Result { return factx.Run(def) }},
 		{"OPT.limits", "optimize/minimize.go", "stats.GradEvaluations >= settings.GradEvaluations", "stats.FuncEvaluations >= settings.GradEvaluations", func() *core.Result { return initx.RunLimits(def) }},
+		{"GOPROTO.semcap", "blas/gonum/dgemm.go", "workerLimit := make(chan struct{}, runtime.GOMAXPROCS(0))", "workerLimit := make(chan struct{}, runtime.GOMAXPROCS(0)-1)", func() *core.Result { return goproto.Run(def, core.Pkgs("./blas/gonum")) }},
 		{"WORKSIZE.min", "lapack/gonum/dgels.go", "wsize := max(1, mn+max(mn, nrhs)*nb)", "wsize := max(1, mn+mn*nb)", wsz},
 		{"WORKSIZE.querylen", "lapack/gonum/dormqr.go", "case lwork < max(1, nw) && lwork != -1:\n\t\tpanic(badLWork)", "case lwork < max(1, nw) && lwork != -1:\n\t\tpanic(badLWork)\n\tcase len(tau) != k:\n\t\tpanic(badLenTau)", wsz},
 		{"WORKSIZE.min", "lapack/gonum/dsyev.go", "lworkopt := max(1, (nb+2)*n)", "lworkopt := max(1, (nb+1)*n)", wsz},
